@@ -173,6 +173,22 @@ var specs = []spec{
 	textScore("Search_scoreStep", &fragSpec{First: "freq := 0", Last: "score += tf * float32(idf)",
 		Params:   []string{"index *indexText", "docItem docCacheItem", "term string", "termSetItem *setCacheItem", "score float32"},
 		Abstract: []string{"termSetItem, _ := index.setCache.Get(term)"}, Results: []string{"score"}}),
+	// the product quantiser: index arithmetic of its two tables and the two quantised distances (sums of table look-ups)
+	pqSpec("centroidDistIdx", "", nil), pqSpec("flatCentroidSlice", "", nil),
+	pqSpec("DistanceFromFloat", "pq_tableFromFloat", &fragSpec{First: "dists := make([]float32", Last: "for i := 0; i < pq.params.NumSubVectors; i++ {",
+		Params: []string{"pq *productQuantizer", "x []float32"}, Locals: []string{"dists []float32"}, Results: []string{"dists"}}),
+	pqSpec("DistanceFromFloat", "pq_lookupFromFloat", &fragSpec{First: "var dist float32", Last: "for i := 0; i < pq.params.NumSubVectors; i++ {",
+		Params: []string{"pq *productQuantizer", "dists []float32", "pointY *productQuantizedPoint"}, Locals: []string{"dist float32"}, Results: []string{"dist"}}),
+	pqSpec("DistanceFromPoint", "pq_lookupFromPoint", &fragSpec{First: "var dist float32", Last: "for i := 0; i < pq.params.NumSubVectors; i++ {",
+		Params: []string{"pq *productQuantizer", "pointX *productQuantizedPoint", "pointY *productQuantizedPoint"}, Locals: []string{"dist float32"}, Results: []string{"dist"}}),
+}
+
+func pqSpec(fn, name string, fr *fragSpec) spec {
+	return spec{File: "shard/vectorstore/product.go", Func: fn, Recv: "productQuantizer", Module: "PQDist", Ext: true, FloatSym: true, Name: name,
+		Structs: []structSpec{{File: "models/quantizer.go", Name: "ProductQuantizerParameters"}, {File: "distance/distance.go", Name: "FloatDistFunc"},
+			{File: "shard/vectorstore/product.go", Name: "productQuantizer", Only: []string{"params", "distFn", "subVectorLen", "centroidDists", "flatCentroids"}},
+			{File: "shard/vectorstore/product.go", Name: "productQuantizedPoint", Only: []string{"Vector", "CentroidIds"}}},
+		Frag: fr}
 }
 
 // the float metrics of distance.go; the dot product implementation (a package variable: AVX kernel or pure Go loop) is abstract
